@@ -64,7 +64,7 @@ impl OutputFormat for TundraDraw {
                 let mut cmd = 0;
                 // characters 1..=6 are command codes, they are always written with a (possibly unchanged) foreground color
                 let mut fg = cur_attr.get_foreground();
-                if cur_attr.is_bold() {
+                if cur_attr.is_bold() && fg < 8 {
                     fg += 8;
                 }
                 let fg_rgb = buf.palette.get_rgb(fg);
